@@ -418,3 +418,33 @@ func (c *Ctx) isParamOf(fd *ast.FuncDecl, v *types.Var) bool {
 	}
 	return false
 }
+
+// closureOf: the function a callback argument denotes, with the environment its body runs in — a function literal (env as captured),
+// or a pointer-receiver method of this package bound to a struct made on the path (`collector.push`): the method's declaration read as
+// a literal, the receiver bound to that struct (whose fields are the pseudo-locals the caller reads afterwards). The third result is
+// the bound receiver (nil for a literal).
+func (c *Ctx) closureOf(t Term, env map[types.Object]Term) (*ast.FuncLit, map[types.Object]Term, Term) {
+	if lit, ok := t.(TLit); ok {
+		if fl, isFl := lit.Node.(*ast.FuncLit); isFl {
+			return fl, env, nil
+		}
+		return nil, nil, nil
+	}
+	mv, ok := t.(TCall)
+	if !ok || mv.Name != "methodvalue" || mv.Epoch != -1 || mv.Fun == nil || mv.Recv == nil {
+		return nil, nil, nil
+	}
+	md := c.DeclOf(mv.Fun)
+	if md == nil || md.Body == nil || md.Recv == nil || len(md.Recv.List) != 1 || len(md.Recv.List[0].Names) != 1 {
+		return nil, nil, nil
+	}
+	if _, isPtr := c.typeOf(md.Recv.List[0].Type).(*types.Pointer); !isPtr {
+		return nil, nil, nil // a value receiver works on a copy: nothing it assigns reaches the caller
+	}
+	ne := copyEnv(env)
+	if ne == nil {
+		ne = map[types.Object]Term{}
+	}
+	ne[c.Info.Defs[md.Recv.List[0].Names[0]]] = mv.Recv
+	return &ast.FuncLit{Type: md.Type, Body: md.Body}, ne, mv.Recv
+}
